@@ -1,12 +1,13 @@
 /-
-  Kernel-checked ties (C18): unixutil.TimevalFromNsec and csptp.DurationFromTimeInterval as
-  regenerated from /repo's Go source (Gen/Leaf.lean) are the hand-written models.
+  Kernel-checked ties (C18): unixutil.TimevalFromNsec, csptp.DurationFromTimeInterval and the
+  four CSPTP delay/offset formulas (C2SDelay, S2CDelay, MeanPathDelay, ClockOffset) as
+  regenerated from /repo's Go source (Gen/Leaf.lean) are the hand-written models, for all inputs.
 -/
 import ScionTime.Gen.Leaf
 import ScionTime.Model.Unixutil
 import ScionTime.Model.CsptpConv
 namespace ScionTime.LeafTieC18
-open ScionTime.Gen.Leaf
+open ScionTime ScionTime.Gen.Leaf
 
 theorem C18_leaf_DurationFromTimeInterval (i : Int64) :
     csptp_DurationFromTimeInterval i = CsptpConv.durationFromTimeInterval i := rfl
@@ -16,5 +17,27 @@ theorem C18_leaf_TimevalFromNsec (nsec : Int64) :
       ((Unixutil.timevalFromNsec nsec).sec, (Unixutil.timevalFromNsec nsec).usec) := by
   unfold unixutil_TimevalFromNsec Unixutil.timevalFromNsec
   by_cases h : nsec % 1000000000 < 0 <;> simp [h]
+
+/-- `t.Sub(u)` of the prelude is the model's (the two definitions test the bounds in the
+    opposite order) -/
+theorem timeSub_eq (t u : Int) : Go.Time.sub t u = CsptpConv.timeSub t u := by
+  unfold Go.Time.sub CsptpConv.timeSub
+  split <;> split <;> first | rfl | omega | (split <;> first | rfl | omega)
+
+theorem C18_leaf_C2SDelay (t0 t1 : Int) (c u : Int64) :
+    csptp_C2SDelay t0 t1 c u = CsptpConv.c2sDelay t0 t1 c u := by
+  unfold csptp_C2SDelay CsptpConv.c2sDelay; rw [timeSub_eq]
+
+theorem C18_leaf_S2CDelay (t2 t3 : Int) (c u : Int64) :
+    csptp_S2CDelay t2 t3 c u = CsptpConv.s2cDelay t2 t3 c u := by
+  unfold csptp_S2CDelay CsptpConv.s2cDelay; rw [timeSub_eq]
+
+theorem C18_leaf_MeanPathDelay (t0 t1 t2 t3 : Int) (c1 c3 : Int64) :
+    csptp_MeanPathDelay t0 t1 t2 t3 c1 c3 = CsptpConv.meanPathDelay t0 t1 t2 t3 c1 c3 := by
+  unfold csptp_MeanPathDelay CsptpConv.meanPathDelay; rw [timeSub_eq, timeSub_eq]
+
+theorem C18_leaf_ClockOffset (t0 t1 t2 t3 : Int) (c1 c3 : Int64) :
+    csptp_ClockOffset t0 t1 t2 t3 c1 c3 = CsptpConv.clockOffset t0 t1 t2 t3 c1 c3 := by
+  unfold csptp_ClockOffset CsptpConv.clockOffset; rw [timeSub_eq, timeSub_eq]
 
 end ScionTime.LeafTieC18
